@@ -288,7 +288,7 @@ func knownCondShape(p *Prog) string {
 func RunFragment(rng *lib.Rng, tier string, dir string, sum *lib.Summary) {
 	nProg, nMut := 170, 2
 	if tier == "thorough" {
-		nProg, nMut = 1200, 2
+		nProg, nMut = 900, 2
 	}
 	cw := &lib.CaseWriter{Dir: dir, Prefix: "c01frag", Header: fragHeader, ElemType: "case",
 		CheckFn: "check_case", PerFile: 120}
@@ -411,7 +411,7 @@ func RunFragment(rng *lib.Rng, tier string, dir string, sum *lib.Summary) {
 			ri, rv = resCoq(oi, ci), resCoq(ov, cv)
 		}
 		genS := "false"
-		if origin == "gen" || origin == "corpus" || origin == "mut:double-move" || origin == "mut:return-shape" {
+		if origin == "gen" || origin == "corpus" || origin == "mut:double-move" || origin == "mut:return-shape" || origin == "mut:guard-else-shape" {
 			// these mutations only add a statement / control flow: the mutant stays in the fragment,
 			// so the real checker must not accept what the model's checker rejects
 			genS = "true"
@@ -481,7 +481,7 @@ func shrinkProg(p *Prog, fails func(*Prog) bool) string {
 		for _, b := range collect(p).blocks {
 			for i := len(*b) - 1; i >= 0 && budget > 0; i-- {
 				st := (*b)[i]
-				if st.Op == "let" || st.Op == "iflet" || st.Op == "for" {
+				if st.Op == "let" || st.Op == "iflet" || st.Op == "for" || st.Op == "guardlet" {
 					continue
 				}
 				old := *b
